@@ -12,7 +12,7 @@ PROPERTY = 'C03'
 LEVEL = 'exploration'
 RULE = ('(A) every ordered pair (Y, X) of restricted-growth strings of length n scored by mutual_info_estimator_numba(Y, X, 1, True) and '
         'compared with a float64 reference H(Y*|X) - H(Y|X) (Y* = Y read at the position advanced cyclically by the stratum size; '
-        'element-wise identical vectors -> H(Y)); corollaries (constant / all-distinct feature -> 0, self -> entropy) on the complete sets; '
+        'element-wise identical vectors -> H(Y)); corollaries (constant / all-distinct feature -> 0, self -> entropy) on the complete sets; six large structured cases (300 and 900 classes, strata of 4000..6000 rows, drifting row order); '
         '(C) planted-signal ranking corollary over a finite seed window; (D) heuristic name -> correction flag, incl. every ordered pair of numba_mi calls over (vectors, heuristic name, ratio) in one process state vs a pristine state. '
         'distinct_nontrivial = ordered pairs with Y != X element-wise, both non-constant')
 ASSUMPTIONS = ['tolerance 1e-5 + 1e-5*|ref|', 'ranking corollary: complete enumeration of the seed window VERIF_SEED*W..+W-1 only']
@@ -49,11 +49,12 @@ def _shard(job):
     st = Stats()
     f = est.estimator()
     A = est.arrs(n)
+    A2 = est.arrs2(n)     # the target side lives in its own buffers: a self pair is a pair of EQUAL vectors, not of one object
     for i in range(lo, hi):
         ty, ay = A[i]
         ky = len(set(ty))
         for j in range(len(A)):
-            tx, ax = A[j]
+            tx, ax = A2[j]
             check_one(f, ty, ay, tx, ax, st)
             if i != j and ky > 1 and len(set(tx)) > 1:
                 st.count('nontrivial')
@@ -135,6 +136,43 @@ def _flags(_):
     return st
 
 
+def large_cases():
+    """(name, Y, X): exact identity beyond the exhaustive scope: many classes (> 256), strata longer than 4096 rows, row orders that are not exchangeable"""
+    from mc.checks.c09 import lcg_stream
+    g = lcg_stream(17)
+    out = []
+    n = 700
+    y = [next(g) % 300 for _ in range(n)]
+    out.append(('classes300', y, [(v + next(g) % 3) % 5 for v in y]))
+    out.append(('classes_all_distinct', list(range(900)), [(i * 7 + i // 50) % 3 for i in range(900)]))
+    n = 10000
+    drift = [(i // 100) % 7 for i in range(n)]
+    out.append(('long_strata_sorted_target', drift, [0 if i < 6000 else 1 for i in range(n)]))
+    out.append(('long_strata_interleaved', [(i // 37) % 11 for i in range(n)], [(i // 3 + next(g) % 2) % 2 for i in range(n)]))
+    out.append(('long_strata_drift_vs_blocks', drift, [(i // 5000) for i in range(n)]))
+    out.append(('three_long_strata', [(i * i // 1000) % 13 for i in range(15000)], [i % 3 for i in range(15000)]))
+    return out
+
+
+def _large(_):
+    st = Stats()
+    f = est.estimator()
+    for name, y, x in large_cases():
+        ay, ax = np.array(y, dtype=np.int32), np.array(x, dtype=np.int32)
+        for flag in (True, False):
+            ref = refs.corrected_mi(y, x) if flag else refs.plugin_mi(y, x)
+            ok, s = safe(f, ay, ax, est._F1, flag)
+            st.count('evaluations')
+            st.count('large_cases')
+            st.count('nontrivial')
+            case = {'large': name, 'flag': flag}
+            if not ok:
+                st.violation(case, f'{name}: exception {s}', {'kind': 'exception'})
+            elif not est.near(float(s), ref, 5e-5, 5e-5):
+                st.violation(case, f'{name} (n={len(y)}, correction={flag}): score {float(s)!r}, reference {ref!r}', {'kind': 'large_value', 'flag': flag})
+    return st
+
+
 SEQ_VECS = [((0, 1, 2, 0, 1, 2, 3, 3), (0, 0, 1, 1, 0, 1, 0, 1)), ((0, 1, 2, 3, 4, 5, 6, 7), (0, 0, 0, 0, 1, 1, 1, 1))]
 SEQ_MENU = [(vi, h, r) for vi in range(2) for h in ('MI-numba-randomized', 'MI-numba-3mr', 'MI-numba') for r in (1.0, 0.5)]
 
@@ -173,6 +211,7 @@ def run(ctx):
     for st in pmap(_ranking, rjobs, chunksize=4):
         ctx.stats.merge(st)
     ctx.stats.merge(_flags(None))
+    ctx.stats.merge(_large(None))
     ctx.extra['n_max'] = nmax
     ctx.extra['seed_window'] = [seeds[0], seeds[-1]]
     ctx.extra['uncorrected_misranks'] = int(ctx.stats.n['uncorrected_misranks'])
@@ -185,6 +224,8 @@ def run(ctx):
 def eval_case(case):
     if case.get('kind') == 'seqdiff':
         return seqdiff.replay(seq_call, SEQ_MENU, case['seq'])
+    if 'large' in case:
+        return [v['what'] for v in _large(None).violations if v['case']['large'] == case['large'] and v['case']['flag'] == case['flag']]
     f = est.estimator()
     st = Stats()
     if 'seed' in case:
